@@ -184,6 +184,37 @@ Theorem load_save_visible : forall (s : store) (a : agent),
 Proof. exact (fun s a SV B SS => load_save_visible_lemma s a SV B (share_savedb_sound a SS)). Qed.
 Print Assumptions load_save_visible.
 
+(* ... the same for Algo.load in any later store in which the file's cells are intact (crash point), every registry *)
+Theorem load_later_visible : forall (s : store) (a : agent) (s' : store),
+  savable a = true -> Forall (fun l => l < s_next s) (agent_locs a) -> share_savedb a = true ->
+  s_next (fst (save s a)) <= s_next s' ->
+  (forall l, In l (locs_of (bl_blocks (snd (save s a)))) -> rd s' l = rd (fst (save s a)) l) ->
+  let r := load s' (snd (save s a)) in
+  (a_index (snd r) = a_index a /\ a_mut (snd r) = a_mut a /\ a_arch (snd r) = a_arch a /\ opt_view (snd r) = opt_view a /\
+   a_hps (snd r) = a_hps a /\ a_reg (snd r) = a_reg a) /\
+  map fst (a_blocks (snd r)) = map fst (a_blocks a) /\
+  (forall k, In k (map fst (a_blocks a)) -> is_hidden k = false ->
+     map (rd (fst r)) (blk (snd r) k) = map (rd s) (blk a k)).
+Proof. exact (fun s a s' SV B SS => load_later_visible_lemma s a s' SV B (share_savedb_sound a SS)). Qed.
+Print Assumptions load_later_visible.
+
+(* ... and for load_checkpoint into ANY agent t of the same algorithm (same block keys, same registry), every registry *)
+Theorem load_checkpoint_save_visible : forall (s : store) (a : agent) (s' : store) (t : agent),
+  savable a = true -> Forall (fun l => l < s_next s) (agent_locs a) -> share_savedb a = true ->
+  NoDup (agent_locs t) -> Forall (fun l => l < s_next s') (agent_locs t) ->
+  map fst (a_blocks t) = map fst (a_blocks a) -> a_reg t = a_reg a ->
+  s_next (fst (save s a)) <= s_next s' ->
+  (forall l, In l (locs_of (bl_blocks (snd (save s a)))) -> rd s' l = rd (fst (save s a)) l /\ ~ In l (agent_locs t)) ->
+  snd (load_checkpoint (snd (save s a)) (s', t)) = true ->
+  let r := fst (load_checkpoint (snd (save s a)) (s', t)) in
+  (a_index (snd r) = a_index a /\ a_mut (snd r) = a_mut a /\ a_arch (snd r) = a_arch a /\ opt_view (snd r) = opt_view a /\
+   a_hps (snd r) = a_hps a /\ a_reg (snd r) = a_reg a) /\
+  map fst (a_blocks (snd r)) = map fst (a_blocks a) /\
+  (forall k, In k (map fst (a_blocks a)) -> is_hidden k = false ->
+     map (rd (fst r)) (blk (snd r) k) = map (rd s) (blk a k)).
+Proof. exact (fun s a s' t SV B SS => load_checkpoint_save_visible_lemma s a s' t SV B (share_savedb_sound a SS)). Qed.
+Print Assumptions load_checkpoint_save_visible.
+
 (* non-vacuity: the PPO-like agent with a shared encoder used in the refutation satisfies the hypotheses *)
 Example load_save_visible_hyps :
   savable agent_share = true /\ Forall (fun l => l < s_next store_share) (agent_locs agent_share) /\ share_savedb agent_share = true.
